@@ -11,6 +11,7 @@ import numpy as np
 from lib import Prop, SkipCase
 import util
 from props import c05 as S
+from props import c06w           # C06W hook: store-level tie (Evo/TDVPStore.v)
 from props.c03 import isometry_defects, shapes_by_neighbour
 
 TOL = 1e-8
@@ -128,6 +129,10 @@ def _run_case(case):
         nsteps = case.get("nsteps", 1)
         ob, algo = S.record_run(kind, sysd, nsteps, check_heff=False, mode=mode, after_step=measure)
         ob["initial_shapes"] = init_shapes
+        # --- C06W hook: private run of the same class for the store-level tie (structure after constructor / steps) ---
+        if c06w.sampled(case, 0):
+            ob["w"] = c06w.real_side(case, sysd, kind, mode, S.make_algo, S.rtree_json)
+        # --- end C06W hook ---
         ob["hscale"] = float(np.max(np.abs(sysd["H"])))
         ob["psi0_dev"] = float(np.max(np.abs(ob["measure"][0]["vec"] - psi0))) if ob["measure"] else None
         if sub == "reverse":
@@ -244,17 +249,24 @@ class C06(Prop):
         return [SkipCase(o["skip"]) if "skip" in o else o for o in obs]
 
     def model(self, ctx, cases, obs):
+        # --- C06W hook: tdvp_init / tdvp1_step_t / tdvp2_step_t evaluated on the model store of the initial state ---
+        self._w = c06w.run(ctx, cases, obs)
+        # --- end C06W hook ---
         return S.eval_models(ctx, cases, obs)
 
     def compare(self, case, ob, mo):
         S.tally_instance(self, mo)
         if ob.get("construct"):
             return f"implementation raised in the constructor: {ob['exception']}"
-        return S.compare_traces(case, ob, mo)
+        d = S.compare_traces(case, ob, mo)
+        if d is None and ob.get("w_tie"):          # C06W hook
+            return ob["w_tie"]
+        return d
 
     def extra_obligations(self, ctx):
         n, ok, fails = self.__dict__.get("_inst", [0, 0, []])
-        return n, ok, fails
+        wn, wok, wfails = self.__dict__.get("_w", (0, 0, []))      # C06W hook: per-instance store-level obligations
+        return n + wn, ok + wok, list(fails) + list(wfails)
 
     def oracle(self, case, ob):
         kind = case["kind"]
